@@ -58,6 +58,7 @@ def run(ctx):
     texts = common.corpus('parse') + texts
     res = {'disagreements': [], 'failures': []}
     import gens as _gens
+    res['failures'] += common.threshold_failures('C02', ctx.quick())
     for kind, text, span in _gens.long_cases(ctx.quick()):
         if kind in ('long-ws',):
             continue                      # tens of thousands of whitespace tokens: the lexer-level checks cover it
@@ -112,6 +113,9 @@ def shrink(f):
 
 
 def replay(payload):
+    _f = payload.get('failure') or {}
+    if _f.get('threshold_input'):
+        return common.threshold_replay('C02', _f)
     f = payload.get('failure')
     if f and f.get('long_input'):
         lc = common.long_case_text(f)
